@@ -20,7 +20,9 @@ type slashWorld struct {
 	certs  map[string][]*lib.DoubleSigner // certificate-results tx bytes -> certified slash list
 	done   map[string]map[uint64]bool     // validator address -> heights already slashed
 	v2At   uint64                         // first height at which protocol v2 is active (^0 = never)
-	oracle bool                           // C14 runs: evaluate the stake ledger (C12 runs only want the slashes to happen)
+	nextH  uint64
+	used   []uint64
+	oracle bool // C14 runs: evaluate the stake ledger (C12 runs only want the slashes to happen)
 	prev   *snapshot
 }
 
@@ -63,7 +65,7 @@ func (w *world) slashList(sm *fsm.StateMachine) []*lib.DoubleSigner {
 	n := 1 + t.Pick(4, 2, 1)
 	for i := 0; i < n; i++ {
 		m := vs.ValidatorSet.ValidatorSet[t.Intn(len(vs.ValidatorSet.ValidatorSet))]
-		if t.Chance(1, 3) {
+		if t.Chance(1, 2) {
 			// any staked validator, member of the committee or not (unstaking, paused)
 			var all []*actor
 			for _, a := range w.actors {
@@ -75,13 +77,30 @@ func (w *world) slashList(sm *fsm.StateMachine) []*lib.DoubleSigner {
 					}
 				}
 			}
+			// validators on their way out (unstaking / paused) first: they are the ones other code paths forget
+			var leaving []*actor
+			for _, a := range all {
+				if v, _ := sm.GetValidator(crypto.NewAddressFromBytes(a.addr)); v != nil && (v.UnstakingHeight != 0 || v.MaxPausedHeight != 0) {
+					leaving = append(leaving, a)
+				}
+			}
+			if len(leaving) > 0 && t.Chance(2, 3) {
+				all = leaving
+				c.Probe("slash_list_names_leaving_validator")
+			}
 			if len(all) > 0 {
 				m = &lib.ConsensusValidator{PublicKey: all[t.Intn(len(all))].key.PublicKey().Bytes()}
 			}
 		}
 		var hs []uint64
 		for k, nh := 0, 1+t.Pick(4, 3, 2, 1); k < nh; k++ {
-			hs = append(hs, uint64(1+t.Intn(6)))
+			if len(w.slash.used) > 0 && t.Chance(1, 6) {
+				hs = append(hs, w.slash.used[t.Intn(len(w.slash.used))]) // a height some list named before
+			} else {
+				w.slash.nextH++
+				hs = append(hs, w.slash.nextH)
+				w.slash.used = append(w.slash.used, w.slash.nextH)
+			}
 		}
 		sort.Slice(hs, func(i, j int) bool { return hs[i] < hs[j] })
 		if t.Chance(3, 4) { // most lists carry each height once; the rest keep repeats
